@@ -1,8 +1,9 @@
 """C04 - spinless cascades reproduce the closed-form Legendre x Breit-Wigner amplitude"""
 LEVEL = "other"
-EXPLANATION = ("Bounded end-to-end comparison at the public interface: ConfigLoader models with spin-0 external particles and resonances of spin 0..4 "
+EXPLANATION = ("Amplitude stage proved symbolically (vt/contracts/amp_sym.py): the real amplitude code on an all-symbolic data dictionary equals the closed form for every "
+               "spin assignment J in 0..4^3 and every chain subset, with BWR/Bprime_q2 under proved callee contracts.  In addition: bounded end-to-end comparison at the public interface: ConfigLoader models with spin-0 external particles and resonances of spin 0..4 "
                "against an independent NumPy implementation of the closed form of the statement (Blatt-Weisskopf factors from reverse Bessel polynomials, "
                "running-width relativistic Breit-Wigner, Legendre polynomial of the helicity cosine computed by explicit boosts), absolute normalisation 1.")
 ASSUMPTIONS = []
 
-from vt.contracts import iface_amp, iface_c04_frames  # noqa: F401,E402
+from vt.contracts import amp_sym, iface_amp, iface_c04_frames  # noqa: F401,E402
